@@ -5,6 +5,7 @@ import (
 	"fmt"
 	"os"
 	"sort"
+	"strings"
 	"testing"
 	"time"
 
@@ -59,7 +60,10 @@ func genC15(r *rt.Rand, tier string, idx int) *world.Scenario {
 			cl.Ops = append(cl.Ops, world.Op{K: "delete", Key: k, Rev: world.Rev{M: "known"}})
 		case 3:
 			// a failing write: consumes a revision without touching the engine
-			if r.Chance(0.5) {
+			if r.Chance(0.2) {
+				// a guarded update naming a revision nobody was ever given
+				cl.Ops = append(cl.Ops, world.Op{K: "update", Key: k, Val: v, Rev: world.Rev{M: "abs", N: int64(1)<<62 + int64(r.Intn(1000))}})
+			} else if r.Chance(0.5) {
 				cl.Ops = append(cl.Ops, world.Op{K: "delete", Key: prefix + "/missing", Rev: world.Rev{M: "zero"}})
 			} else {
 				cl.Ops = append(cl.Ops, world.Op{K: "update", Key: k, Val: v, Rev: world.Rev{M: "abs", N: 1}})
@@ -113,7 +117,7 @@ func genC15(r *rt.Rand, tier string, idx int) *world.Scenario {
 	}
 	ops = append(ops, world.Op{K: "crash", Node: 0})
 	sc.Clients = []world.Client{{Ops: ops}}
-	if idx%3 == 1 {
+	if (idx/6+idx)%3 == 1 {
 		// the engine's timestamp oracle fails on the k-th call of the node that takes over
 		sc.Class += "+oracle-fault"
 		// (a standby polls the lock about once a second until the lease expires: the call right after
@@ -128,6 +132,9 @@ func genC15(r *rt.Rand, tier string, idx int) *world.Scenario {
 	}
 	return sc
 }
+
+// idx180: the write-burst class is long enough as it is
+func idx180(sc *world.Scenario) bool { return !strings.Contains(sc.Class, "write-burst") }
 
 func c15Custom(t *testing.T, sc *world.Scenario, out *Outcome) {
 	const P = "C15"
@@ -343,6 +350,49 @@ func c15Custom(t *testing.T, sc *world.Scenario, out *Outcome) {
 		out.Inconclusive = "probe task did not finish"
 	}
 	_ = firstNew
+	if okRun && sc.Seed%4 == 0 && len(out.Violations) == 0 && sc.Extra["drop_lock"] == 0 && idx180(sc) {
+		// a second fail-over: whatever the first new leader started from and wrote, the next one
+		// starts above all of it again
+		s.CrashNode(b.ID)
+		m2 := model.FromGT(w.KV.GT)
+		max2 := m2.MaxRev()
+		c := w.AddNode()
+		leC := start(c)
+		if !until(leC.IsLeader, 60*time.Second) {
+			out.violate(P, "no-new-leader", "no-new-leader second-fail-over", "no node became leader within 60 simulated seconds after the second leader stopped")
+		} else {
+			out.probe("second-fail-over")
+			startRevC := c.B.GetCurrentRevision()
+			w.RunTask("c15-probe-2", -1, 20000, func() {
+				r := w.ProbeOp(world.Op{K: "create", Key: prefix + "/zz-third-leader", Val: "x", Node: c.ID})
+				switch {
+				case r == nil:
+				case r.Err != "":
+					out.violate(P, "new-leader-write-failed", "new-leader-write-failed"+eng, "first write on the leader after the second fail-over failed: %s", r.Err)
+				case r.Hdr <= max2:
+					out.violate(P, "revision-not-above-stored", "revision-not-above-stored"+eng,
+						"after a second fail-over the new leader stamped its first write with revision %d although the store already holds revision %d (this leader initialised at %d, the one before at %d)", r.Hdr, max2, startRevC, startRevB)
+				}
+				var ks []string
+				for k := range m2.Keys {
+					ks = append(ks, k)
+				}
+				sort.Strings(ks)
+				for _, k := range ks {
+					v, ok := m2.At(k, 0)
+					if !ok || v.Tomb {
+						continue
+					}
+					u := w.ProbeOp(world.Op{K: "update", Key: k, Val: "after-second-failover", Rev: world.Rev{M: "abs", N: int64(v.Rev)}, Node: c.ID})
+					if u != nil && (u.Err != "" || !u.OK) {
+						out.violate(P, "guarded-write-on-existing-key-refused", "guarded-write-on-existing-key-refused"+eng,
+							"after a second fail-over: update of %s with its current revision %d: ok=%v err=%q", k, v.Rev, u.OK, u.Err)
+					}
+					break
+				}
+			})
+		}
+	}
 	failing := 0
 	for _, r := range w.Recs {
 		if r.Client >= 0 && isWrite(r.Op.K) && r.Done && !r.OK {
